@@ -353,6 +353,11 @@ Value gen_bench(Rng& g, int min_levels, int max_levels, long max_nodes, bool nee
     BenchSpec s;
     s.nlevels = g.range(min_levels, max_levels);
     s.prob    = gen_problem(g, false, true);
+    if (g.chance(0.2)) {
+        // other physical units (the Zoni profiles in SI units are O(1e-11)): all operator-level claims are relative
+        static const int exps[] = {-20, -10, 10, 20, 40};
+        s.prob.scale_exp        = exps[g.below(5)];
+    }
     s.grid    = gen_grid(g, s.nlevels, (int)max_nodes, need_theta_div4, true);
     s.grid.Rmax = s.prob.Rmax;
     s.dirbc       = g.chance(0.5);
